@@ -65,11 +65,11 @@ def build_form(spec):
     return parts
 
 
-def run_limits(entry, chunks, boundary, maxp, maxm):
+def run_limits(entry, chunks, boundary, maxp, maxm, factory=C.Sink):
     limits = {"max_form_parts": maxp, "max_form_memory_size": maxm}
     try:
-        r = C.run_entry(entry, chunks, boundary, limits=limits)
-        return ("ok", len(r))
+        r = C.run_entry(entry, chunks, boundary, limits=limits, factory=factory)
+        return ("ok", len(r), sum(1 for t in r if t[0] == "file"))
     except RequestEntityTooLarge:
         return ("413", None)
 
@@ -85,6 +85,7 @@ def job_limits(job) -> report.JobResult:
     fbytes = sum(n for k, n in spec if k == "field")
     cutlists = [[], list(range(1, len(body))), [len(body) // 2], list(range(7, len(body), 7))]
     shims = C.make_shims()
+    factory = C.LenSink if job.get("sink") == "len" else C.Sink  # file_factory is a caller-supplied hook: also one that is falsy while empty
     for mem_none in (False, True):
         for cuts in cutlists:
             eng = Engine()
@@ -94,8 +95,8 @@ def job_limits(job) -> report.JobResult:
 
             def fn():
                 chunks = [C.mk_chunk(c) for c in C.split(body, cuts)]
-                a = run_limits("parse_stream", chunks, boundary, SInt(maxp_v), maxm)
-                b = run_limits("parse_async_stream", chunks, boundary, SInt(maxp_v), maxm)
+                a = run_limits("parse_stream", chunks, boundary, SInt(maxp_v), maxm, factory)
+                b = run_limits("parse_async_stream", chunks, boundary, SInt(maxp_v), maxm, factory)
                 return a, b
 
             def on_path(e, r, cuts=cuts, mem_none=mem_none):
@@ -117,6 +118,8 @@ def job_limits(job) -> report.JobResult:
                                 raise Fail(f"{who}-accepted-over-limit")
                             if o[1] != nparts:
                                 raise Fail(f"{who}-part-count")
+                            if o[2] != sum(1 for k_, _ in spec if k_ == "file"):
+                                raise Fail(f"{who}-file-part-not-handed-to-the-file-sink", f"{o[2]} file parts returned")
                     if a[0] != b[0]:
                         raise Fail("sync-async-differ")
                     outcome = "413" if a[0] == "413" else "accepted"
@@ -128,7 +131,7 @@ def job_limits(job) -> report.JobResult:
                 mp = m.eval(maxp_v, True).as_long()
                 mm = None if mem_none else m.eval(maxm_v, True).as_long()
                 wit = {"form": job["form"], "parts": spec, "cuts": cuts if len(cuts) < 6 else f"every {cuts[1] - cuts[0]}", "cuts_list": cuts,
-                       "max_form_parts": mp, "max_form_memory_size": mm}
+                       "max_form_parts": mp, "max_form_memory_size": mm, "sink": job.get("sink")}
                 with shims.off():
                     cp = concrete_limits(wit)
                 if klass is not None:
@@ -158,12 +161,15 @@ def concrete_limits(w):
     out = []
     for entry in ("parse_stream", "parse_async_stream"):
         r = C.run_concrete(entry, body, w["cuts_list"], boundary,
-                           limits={"max_form_parts": w["max_form_parts"], "max_form_memory_size": w["max_form_memory_size"]})
+                           limits={"max_form_parts": w["max_form_parts"], "max_form_memory_size": w["max_form_memory_size"]},
+                           factory=C.LenSink if w.get("sink") == "len" else None)
         got413 = isinstance(r, tuple) and r[0] == "exc" and r[2] == 413
         if isinstance(r, tuple) and r[0] == "exc" and not got413:
             return f"{entry}: {r}"
         if got413 != over:
             return f"{entry}: {'413' if got413 else 'accepted'} with parts={nparts} field_bytes={fbytes} limits=({w['max_form_parts']}, {w['max_form_memory_size']})"
+        if not got413 and sum(1 for t in r if t[0] == "file") != sum(1 for k, _ in spec if k == "file"):
+            return f"{entry}: a file part was not handed to the file sink: {[t[0] for t in r]}"
         out.append(got413)
     return None
 
@@ -301,6 +307,8 @@ def jobs(tier: str):
     out = []
     for i in range(b["forms"]):
         out.append(dict(name=f"limits/form{i}", kind="limits", form=i, weight=20))
+    for i in (2, 4, 9):  # forms with file parts
+        out.append(dict(name=f"limits/form{i}/sink-falsy-while-empty", kind="limits", form=i, sink="len", weight=20))
     out.append(dict(name="twin/limits", kind="limits", form=1, twin=True))
     for part in ("file", "field"):
         for nfree in range(1, b["free_leading_bytes"] + 1):
